@@ -15,7 +15,7 @@ const techPath = "SSA dominance / path rules and affine-form dataflow over go/ss
 
 var properties = map[string]*propDef{
 	"C01": {
-		Rules:     []string{"APPLY", "TAB-NOTE", "TAB-DEGREE", "TAB-CHORDS", "TAB-ATTRS", "TAB-DEFAULTS", "EXTENDS", "PLAYLOOP", "NOTE", "OPT", "LOOKUP"},
+		Rules:     []string{"APPLY", "TAB-NOTE", "TAB-DEGREE", "TAB-CHORDS", "TAB-ATTRS", "TAB-DEFAULTS", "EXTENDS", "PLAYLOOP", "NOTE", "OPT", "LOOKUP", "OVERRIDE"},
 		Technique: "affine-form dataflow on play.Key.Apply (pitch = 60 + tonic + degree + attribute / + base - 12) plus " + techTab,
 		Explanation: "the pitch arithmetic as an affine identity of Key.Apply (exactly one bass emission MiddleC+key+degree+base-12 and one tone emission MiddleC+key+degree+attribute per attribute, nothing else; every failed lookup is an error); every row of the letter, accidental, interval-size, chord and attribute tables against a first-principles specification, including the size algorithm for 1..64 x 7 qualities on the extracted model; MiddleC folds to 60 and the default bass to a unison; `extends` is inherited parent-first; the key in force is the one applied by update() before getKey() in the same iteration; flags override instance 0 only; one note-on per key.",
 		NotDecided:  "that the control flow of Degree.simpleSemitone implements the algorithm whose tables and tuples were extracted (the search loop itself is not proved); uint8 wrap-around outside the MIDI range (excluded by the property's premise); everything inside gomidi.",
@@ -51,7 +51,7 @@ var properties = map[string]*propDef{
 		NotDecided:  "the invariant itself as a statement about all histories (it would need an inductive proof over heap state); only the premises a hand proof uses are checked.",
 	},
 	"C07": {
-		Rules:     []string{"TAB-DYNAMICS", "TAB-DEFAULTS", "TAB-KEYSIG", "SCALEWIRE", "OPT", "OPMAP", "PENDING", "NARROW", "PLAYLOOP", "FLAGS", "REJECT"},
+		Rules:     []string{"TAB-DYNAMICS", "TAB-DEFAULTS", "TAB-KEYSIG", "SCALEWIRE", "OPT", "OPMAP", "PENDING", "NARROW", "PLAYLOOP", "OVERRIDE", "FLAGS", "REJECT"},
 		Technique: techTab + "; " + techPath + " for the Opt typestate and the writer wiring",
 		Explanation: "the dynamics table is strictly increasing within 1..127; defaults are 100 bpm, 4/4, C and a dynamic that has a velocity, each cell starting `updated` so that it is emitted at tick 0; Opt cells emit on first use and after every Update only; update() stores every non-nil setting of an instance (exhaustive over the struct's pointer fields); bpm/meter/key/meta cells are wired to Tempo / Meter(Num, Denom) / Key(tonic, !Minor, Flat+Sharp, Flat>0) / Text-Lyric-Marker by txt-lic-mrk with the text passed unmodified; each op calls the gomidi constructor the SMF spec names; control events consume the pending delta so they land at the instance start (also on rests, since update/emit precede the rest branch); flags override instance 0 only and every getter reads a flag of the right name and type on every command it runs for; meter values that do not fit a MIDI time signature are refused by validate.",
 		NotDecided:  "microseconds-per-quarter arithmetic and denominator encoding (gomidi); UTF-8 byte identity through yaml.v3.",
@@ -63,7 +63,7 @@ var properties = map[string]*propDef{
 		NotDecided:  "header bytes, chunk lengths, variable-length quantities and data-byte masking: gomidi, trusted.",
 	},
 	"C09": {
-		Rules:     []string{"EXIT", "EOFPRED", "NILOK", "VALIDATE", "REJECT", "MUST", "RECUR", "ERRDROP", "FLAGS", "NARROW", "LOOKUP", "DEBUGOUT", "PLAYLOOP", "APPLY", "CONC", "SELECT", "SCALEWIRE", "CLASSIFY", "PARSEERR", "TAB-REGEX"},
+		Rules:     []string{"EXIT", "EOFPRED", "NILOK", "VALIDATE", "REJECT", "MUST", "RECUR", "ERRDROP", "ERRFLOW", "FLAGS", "NARROW", "LOOKUP", "DEBUGOUT", "PLAYLOOP", "APPLY", "CONC", "SELECT", "SCALEWIRE", "CLASSIFY", "PARSEERR", "TAB-REGEX"},
 		Technique: "inventory and path rules over every site of a failure class: exit status, loop predicates at EOF, decode-without-validate, (nil,true) lookups, panicking wrappers on untrusted data, recursion cycles, dropped errors",
 		Explanation: "seven failure classes, each for every site in the program: a failed Execute reaches os.Exit(non-zero); every NextWhile/DiscardWhile predicate folds to false at EOF; every decoder/constructor of a validated type validates before returning nil and each validator refuses the documented nonsense (0 durations, tempo 0, unknown dynamic, no durations); no lookup returns (nil, true); every function that can panic is in a reviewed inventory and every call site of a Must* wrapper is an initialiser, constant, or reviewed with a checked invariant; every call-graph cycle and condition-only loop has a reviewed termination measure (cyclic `extends` is rejected by validate, checked structurally); no error of a repo function or of yaml/io/os decoding is discarded; unknown chords, unknown keys, mixed notation and syntax errors are errors before anything is produced.",
 		NotDecided:  "absence of implicit run-time panics in general (index, nil, division); `promptly` as a quantitative statement; the behaviour of cobra / yaml.v3 on malformed flags or YAML.",
